@@ -312,6 +312,13 @@ def run(ctx):
         "valgrind": vg_info,
         "daemon_written_segment": daemon_file,
     }
+    # threads and forked children in a C client (own contexts, handed-over contexts, inherited contexts)
+    from . import client as _client
+    _mv, _ms = _client.run_mt(ctx, "C17", 2.0 if ctx.quick() else 20.0)
+    viol += _mv
+    coverage["multi_threaded_c_client"] = _ms
+    if any("inconclusive" in str(v) or str(v).startswith("exit ") for v in _ms.values()) and not inconclusive:
+        inconclusive = "multi-threaded C client scenario did not complete: %s" % _ms
     finish(ctx, coverage, viol, inconclusive, assumptions=["offsets in vlib/protocol.py were transcribed from docs/PROTOCOL.md by hand", "little-endian x86-64 host only"])
 
 
